@@ -453,7 +453,7 @@ func mkCoreCases() []func(rng *rand.Rand) mkCase {
 		return c
 	})
 	// consumer
-	for i := 0; i < 8; i++ {
+	for i := 0; i < 10; i++ {
 		i := i
 		add(func(rng *rand.Rand) mkCase { return mkFixedConsumer(rng, i) })
 	}
